@@ -127,6 +127,15 @@ def XT(lexid, version, mark):
     the texts (written form, tag, pronunciation, definition).  Whatever one of them declares must never show up
     under, or disappear because of, another."""
     B, P = 'a-', 'x-'
+    own_rel = [mk.rel(B + 'ss1', 'hypernym')]
+    more_entries, more_synsets = [], []
+    if lexid == 'z':
+        # the fork knows a concept (ILI i7) that neither the base nor x:1 / x:2 have: seen from a synset of x:*
+        # with expansion, the hypernym borrowed through ILI i4 is a placeholder, never this synset of a sibling
+        own_rel.append(mk.rel(P + 'ss2', 'hypernym'))
+        more_entries = [mk.entry(P + 'e2', 'zeta', 'n', senses=[mk.sense(P + 's3', P + 'ss2')])]
+        more_synsets = [mk.synset(P + 'ss2', 'n', 'i7', definitions=['zeta ' + mark],
+                                  relations=[mk.rel(P + 'ss1', 'hyponym')])]
     return mk.lexicon(lexid, version, 'en', f'Twin extension {lexid}:{version}', extends={'id': 'a', 'version': '1'},
                       entries=[{'id': B + 'e1', 'external': True,
                                 'forms': [{'writtenForm': 'alpha' + mark, 'id': P + 'f9',
@@ -136,12 +145,12 @@ def XT(lexid, version, mark):
                                mk.entry(P + 'e1', 'gamma', 'n',
                                         forms=[{'writtenForm': 'gammas', 'id': P + 'f1',
                                                 'tags': [{'text': 'pl-' + mark, 'category': 'num'}]}],
-                                        senses=[mk.sense(P + 's2', P + 'ss1')])],
+                                        senses=[mk.sense(P + 's2', P + 'ss1')])] + more_entries,
                       synsets=[{'id': B + 'ss1', 'external': True,
                                 'definitions': [{'text': 'definition by ' + mark, 'meta': None}]},
                                {'id': B + 'ss3', 'external': True},
                                mk.synset(P + 'ss1', 'n', 'i4', definitions=['gamma ' + mark],
-                                         relations=[mk.rel(B + 'ss1', 'hypernym')])])
+                                         relations=own_rel)] + more_synsets)
 
 
 def resources_twin():
@@ -153,7 +162,7 @@ def resources_twin():
     }
 
 
-FORMS_TWIN = ['alpha', 'alphas', 'alphaxone', 'alphaxtwo', 'alphazed', 'gamma', 'gammas', 'beta', 'nothing']
+FORMS_TWIN = ['alpha', 'alphas', 'alphaxone', 'alphaxtwo', 'alphazed', 'gamma', 'gammas', 'zeta', 'beta', 'nothing']
 SPEC_TWIN = {'A1': 'a:1', 'A2': 'a:2', 'T1': 'x:1', 'T2': 'x:2', 'Z1': 'z:1'}
 
 
